@@ -44,7 +44,7 @@ def _crosses_year_end(spec):
     y, j = divmod(spec['sdate'], 1000)
     leap = (y % 4 == 0 and (y % 100 != 0 or y % 400 == 0))
     last = 366 if leap else 365
-    return j == last and spec['stime'] + spec['nt'] - 1 >= 24
+    return (spec['nt'] - 1) * float(spec.get('dt', 1.0)) >= (last - j + 1) * 24 - spec['stime']
 
 
 def gen_config(rng, tier):
@@ -72,6 +72,10 @@ def gen_spec(rng, fmt):
         spec['nx'] = rng.randrange(2, 4)
         spec['ny'] = 2
         spec['nt'] = rng.randrange(2, 4)
+    if rng.random() < 0.2:
+        # output every few hours, daily or every other day: consecutive steps can
+        # carry the same time of day
+        spec['dt'] = float(rng.choice([3, 6, 12, 24, 24, 48]))
     if fmt == 'uamiv':
         spec['species'] = rng.sample(['O3', 'NO2', 'CO', 'PAR', 'ISOP', 'A1B2C3D4E5', 'NO', 'NO3',
                                       'HNO3', 'PNO3', 'HONO', 'N2O5', 'O', 'CO2'],
@@ -123,6 +127,51 @@ def times_of(family, f, fmt):
             hh = int(round(float(t) * 100))
         out.append((camx.yyyyjjj(int(d)), hh))
     return out
+
+
+def _truth(fmt, sp):
+    """what the producer wrote: ([(YYYYJJJ, HHMMSS)], [arrays])"""
+    if fmt == 'uamiv':
+        g = camx.gridded_from_spec(sp)
+        return ([(t[0], int(round(t[1] * 10000))) for t in g['times']],
+                [np.asarray(g['data'][:, i]) for i in range(len(g['species']))])
+    m = camx.met_from_spec(sp)
+    return ([(d, int(round(h * 100))) for d, h in m['times']], list(m['fields'].values()))
+
+
+def step_class(sp):
+    dt = float(sp.get('dt', 1.0))
+    return 'hourly' if dt == 1.0 else ('sub-daily' if dt < 24 else 'daily+')
+
+
+def deviating(fmt, sp, path):
+    """which FRESH reader family departs from what the producer wrote
+    ('m', 'r', 'mr' or 'none'): attributes a disagreement, so that a recorded
+    limitation of one family never hides a defect of the other"""
+    try:
+        times, arrays = _truth(fmt, sp)
+    except BaseException:
+        return '?'
+    tb = set(np.asarray(a, 'f4').tobytes() for a in arrays)
+    wrong = ''
+    for fam in 'mr':
+        def chk():
+            f = open_reader(fam, fmt, path, sp)
+            if times_of(fam, f, fmt) != times:
+                return False
+            if 'TSTEP' in f.dimensions and len(f.dimensions['TSTEP']) != sp['nt']:
+                return False
+            for k in data_keys(f):
+                if np.asarray(f.variables[k][...], 'f4').tobytes() not in tb:
+                    return False
+            return True
+        try:
+            ok, _ = _guard(chk)
+        except BaseException:
+            ok = False
+        if not ok:
+            wrong += fam
+    return wrong or 'none'
 
 
 def select(a, sel):
@@ -335,7 +384,8 @@ def _apply(st, op):
             if killed:
                 full = {'format': fmt, 'family': fam, 'invariant': 'reader-does-not-terminate',
                         'crosses_year_end': _crosses_year_end(spec),
-                        'cells_le_3': spec['nx'] * spec['ny'] <= 3}
+                        'cells_le_3': spec['nx'] * spec['ny'] <= 3,
+                        'step': step_class(spec)}
                 detail = ('%s reader did not finish opening and reading a valid file '
                           'within %d s of CPU time: %s' % (
                               {'m': 'memory-mapped', 'r': 'record'}.get(fam, fam),
@@ -401,8 +451,10 @@ def _apply(st, op):
 
     def viol(inv, detail, **sig):
         sp = sig.pop('about', None) or spec       # the file the finding is about
+        pth = sig.pop('about_path', None) or path
         full = dict(sig, format=fmt, crosses_year_end=_crosses_year_end(sp),
-                    cells_le_3=sp['nx'] * sp['ny'] <= 3, invariant=inv)
+                    cells_le_3=sp['nx'] * sp['ny'] <= 3, invariant=inv,
+                    step=step_class(sp), fresh_reader_off_truth=deviating(fmt, sp, pth))
         kn = w.known_match(full)
         if kn is not None:
             kh = st.stats['known_hits'].setdefault(kn, {'n': 0, 'example': None})
@@ -455,11 +507,18 @@ def _apply(st, op):
             return {'note': 'noop'}
         st.stats['raw_record_reads'] += 1
         tl = list(fresh('r').timerange())
+        if not tl:
+            viol('readers-disagree', 'a fresh record reader lists no time at all',
+                 what='tflag', family='r')
         d, t = tl[op['t'] % len(tl)]
         k = op['k']
         m = fresh('m')
         ti = op['t'] % len(tl)
         j = op['j']
+        nm = len(m.dimensions['TSTEP']) if 'TSTEP' in m.dimensions else None
+        if nm is not None and nm != len(tl):
+            viol('readers-disagree', 'a fresh record reader lists %d times, a fresh memmap '
+                 'reader has %d steps' % (len(tl), nm), what='dimension', family='-')
         if fmt == 'uamiv':
             names = [s.strip() for s in st.r.spcnames]
             spc = j % len(names)
@@ -722,7 +781,7 @@ def _apply(st, op):
                 g, _ = _guard(lambda: open_reader(fam, fmt, p2, sp2))
                 res[fam] = {k: np.array(g.variables[k][...]) for k in data_keys(g)}
             except Timeout:
-                viol('reader-does-not-terminate', 'sibling file', family=fam, about=sp2)
+                viol('reader-does-not-terminate', 'sibling file', family=fam, about=sp2, about_path=p2)
             except BaseException as e:
                 res[fam] = None
         # the sibling itself must be read like a fresh process would read it:
@@ -742,7 +801,7 @@ def _apply(st, op):
                          'second file of the same layout (%s): %s reader gives %s..., the other '
                          'family %s...' % (k, fam, got[k].ravel()[:3].tolist(),
                                            exp[k].ravel()[:3].tolist()),
-                         what='data-second-file', family=fam, about=sp2)
+                         what='data-second-file', family=fam, about=sp2, about_path=p2)
     elif o == 'replace':
         # the file at the SAME path is replaced by a different one and reopened
         st.m = None
